@@ -2,6 +2,7 @@
   C17 — No password failing the configured policy is ever stored.
 -/
 import Whawty.Lemmas.Policy
+import Whawty.Lemmas.Utf8
 namespace Whawty.Policy.C17
 open Whawty Whawty.Policy
 
@@ -112,7 +113,19 @@ theorem parsed_condition_has_three_words (s : Bytes) (c : Cond) (h : parseCondit
   obtain ⟨k, t, hf, _⟩ := (condition_parser_exact s c).mp h
   rw [hf]; rfl
 
+/-- **The model's `fields` is Go's `strings.Fields`** as its documentation defines it: the maximal
+    substrings between `unicode.IsSpace` runes, with runes decoded the way `for … range` decodes
+    them (`Utf8.decodeRune`: overlong, surrogate, out-of-range and truncated spellings are one-byte
+    `RuneError`s). The byte-level scan of the model needs no decoder because every white-space rune
+    starts with a lead byte, and a lead byte is always at a rune boundary — proved, not assumed:
+    `Utf8.spaceLen_eq_rune`, `Utf8.width_conts`, `Utf8.spaceLen_cont`. -/
+theorem fields_is_strings_Fields (s : Bytes) : fields s = Utf8.fieldsSpec s := Utf8.fields_eq_spec s
+
 /- Non-vacuity -/
+example : Utf8.decodeRune [0xE2, 0x82, 0xAC, 65] = (0x20AC, 3) := by decide        -- "€A"
+example : Utf8.decodeRune [0xC0, 0xA0] = (Utf8.runeError, 1) := by decide           -- overlong U+0020
+example : Utf8.decodeRune [0xED, 0xA0, 0x80] = (Utf8.runeError, 1) := by decide     -- a surrogate
+example : Utf8.fieldsSpec [97, 0xE2, 0x80, 0x83, 98, 0xC2, 0xA0] = [[97], [98]] := by decide
 -- "score\u00a0>=\u20003" (no-break space, en quad) parses; U+200B (zero width space) is not white space
 example : parseCondition [115, 99, 111, 114, 101, 0xC2, 0xA0, 62, 61, 0xE2, 0x80, 0x80, 51] = some ⟨.score, 3⟩ := by decide
 example : parseCondition [115, 99, 111, 114, 101, 0xE2, 0x80, 0x8B, 62, 61, 32, 51] = none := by decide
